@@ -69,6 +69,7 @@ def engMMScalar (s : St) (op : String) (t : Dense) (sc : ScalarArg) (leftTensor 
   if !fo.safe then throwPanic "Unreachable"
   let ret : Ret := if created then .fresh r else .reuse
   let reuseOut : Option Dense := if created then fo.reuse else some r
+  if useIter && sc.win.len != 1 then throwPanic "nil iterator: scalar operand with a multi-cell window"
   if useIter then
     let it ← t.itStream s
     let ir ← r.itStream s
